@@ -77,6 +77,10 @@ var versions = []version{
 		return "counter c\ngauge d by k\ncounter e\n" + rules + "/^inc$/ {\n  e++\n}\n" + fmt.Sprintf("# nonce %d\n", n)
 	}, base, false},
 	{"syntax-error", func(n int) string { return "counter c\ngauge d by k\n" + rules + fmt.Sprintf("this is { not valid %d\n", n) }, nil, true},
+	{"kind-clash-within-the-program", func(n int) string {
+		// compiles (the two y are in different scopes) but cannot be registered
+		return "counter c\ngauge d by k\n" + rules + "/^zz1$/ {\n  counter y\n  y++\n}\n/^zz2$/ {\n  gauge y\n  y = 1\n}\n" + fmt.Sprintf("# nonce %d\n", n)
+	}, nil, true},
 	{"kind-clash", func(n int) string {
 		return "counter c\ngauge d by k\ngauge x\n" + rules + "/^inc$/ {\n  x = 1\n}\n" + fmt.Sprintf("# nonce %d\n", n)
 	}, nil, true},
@@ -231,7 +235,7 @@ func kept(old, new []decl) map[string]bool {
 func TestC14(t *testing.T) {
 	r := ev.Start(t, "C14", "exploration")
 	defer r.Finish()
-	r.Rule("histories over {load version v for v in (base, identical, comment appended, declaration moved, kind changed (first / a later declaration), type changed, keys changed, declaration removed, declaration added, syntax error, kind clash with a second program), feed lines, GC, unload} on a real runtime.Runtime + Store + Prometheus registry; all histories of length <=2 (quick) / <=3 (thorough) exhaustively plus random length-8 histories; after every step: identical reload changes nothing (snapshot, metric identity, VM id, load counter); kept declarations keep values and expiry; a failed load leaves the export unchanged and the old version still updates the export; the scrape never fails nor lists a series twice; values follow the model of the lines fed. Non-trivial: history with >=1 successful reload after data exists; distinct by history.")
+	r.Rule("histories over {load version v for v in (base, identical, comment appended, declaration moved, kind changed (first / a later declaration), type changed, keys changed, declaration removed, declaration added, syntax error, kind clash with a second program, kind clash between two declarations of the program itself), feed lines, GC, unload} on a real runtime.Runtime + Store + Prometheus registry; all histories of length <=2 (quick) / <=3 (thorough) exhaustively plus random length-8 histories; after every step: identical reload changes nothing (snapshot, metric identity, VM id, load counter); kept declarations keep values and expiry; a failed load leaves the export unchanged and the old version still updates the export; the scrape never fails nor lists a series twice; values follow the model of the lines fed. Non-trivial: history with >=1 successful reload after data exists; distinct by history.")
 	r.Assume("for a declaration that was not kept (moved / retyped / re-keyed / kind changed) the statement fixes no value: the model adopts what is observed", "expvar load counters are read per unique program name")
 	lh := func(id uint64, name string, l *logline.LogLine, phase int) {
 		if phase == 0 && strings.HasPrefix(name, "c14_") {
